@@ -63,7 +63,18 @@ where
                 // Loop until we are done or that some of the polls return `Pending`
                 loop {
                     trace!("polling us");
-                    let new_buf = ready!(Pin::new(&mut *this.us).poll_fill_buf(cx))?;
+                    let new_buf = match Pin::new(&mut *this.us).poll_fill_buf(cx) {
+                        Poll::Ready(res) => res?,
+                        Poll::Pending => {
+                            // Nothing more from the peer for now: what we have written must
+                            // reach the other side before we go idle (it may be buffering).
+                            // `poll_write_us` flushes only while the other side is still
+                            // readable and has nothing to read.
+                            ready!(this.other.as_mut().poll_flush(cx))?;
+                            // `poll_fill_buf` has our waker
+                            return Poll::Pending;
+                        }
+                    };
                     if new_buf.is_empty() {
                         // Our side EOF
                         *this.read_state = ReadState::ShuttingDown(read_amt);
